@@ -205,6 +205,44 @@ pub fn composite_shapes(tier: Tier, n: usize, ranks: &[usize]) -> Vec<Shape> {
     out
 }
 
+/// every combination of (input, key, result) radices over {16,17}: in particular input != key == result and
+/// input == result != key, which decide independently how the input and the result are converted
+pub fn radix_cube_shapes(tier: Tier, n: usize, ranks: &[usize]) -> Vec<Shape> {
+    let mut out = vec![];
+    for b_in in [16usize, 17] {
+        for b_key in [16usize, 17] {
+            for b_out in [16usize, 17] {
+                for &rank in ranks {
+                    for dsize in 1..=tier.pick(2, 3) {
+                        let a_size = 3usize;
+                        let a_conv = if b_in == b_key { a_size } else { (a_size * b_in).div_ceil(b_key) };
+                        let dnum = a_conv.div_ceil(dsize);
+                        let min_size = (dnum * dsize).max(dsize + 1);
+                        out.push(Shape {
+                            n,
+                            rank_in: rank,
+                            rank_out: rank,
+                            dsize,
+                            a_size,
+                            dnum,
+                            dnum_rel: "equal".into(),
+                            k_key: (a_conv * b_key + dsize * b_key + 1).max(min_size * b_key),
+                            kprec: "above".into(),
+                            b_in,
+                            b_key,
+                            b_out,
+                            res_size: (a_size * b_in).div_ceil(b_out),
+                            res_rel: "equal".into(),
+                            noise: NoiseCfg::Default,
+                        });
+                    }
+                }
+            }
+        }
+    }
+    out
+}
+
 fn log2n(n: usize) -> usize {
     n.trailing_zeros() as usize
 }
@@ -357,7 +395,12 @@ pub fn trace_cases<B: Bk>(tier: Tier) -> Vec<TraceCase> {
     let mut out = vec![];
     for n in tier.pick(vec![8, 16], vec![8, 16, 32]) {
         for op in ["glwe_trace", "glwe_trace_assign"] {
-            for mut shape in composite_shapes(tier, n, &tier.pick(vec![1, 2], vec![1, 2, 3])) {
+            let ranks = tier.pick(vec![1, 2], vec![1, 2, 3]);
+            let mut all = composite_shapes(tier, n, &ranks);
+            if n <= 16 {
+                all.extend(radix_cube_shapes(tier, n, &ranks));
+            }
+            for mut shape in all {
                 if op == "glwe_trace_assign" {
                     if shape.b_in != shape.b_out {
                         continue;
@@ -400,6 +443,9 @@ pub struct PackCase {
     pub log_gap: usize,
     /// explicit subsets (bit t = slot t); empty = every subset of the slots
     pub subsets: Vec<u64>,
+    /// packer only: radix of the accumulators (None: the inputs' radix)
+    #[serde(default)]
+    pub b_acc: Option<usize>,
 }
 
 fn structured_subsets(slots: usize) -> Vec<u64> {
@@ -447,13 +493,17 @@ where
     let ct_lay = glwe_layout(n, s.b_in, s.k_in(), rank);
     let r_lay = glwe_layout(n, s.b_out, s.k_out(), rank);
     let key_lay = keys.values().next().unwrap().gglwe_layout();
-    let tmp = if packer { glwe_packer_tmp_bytes(&m, &ct_lay, &key_lay) } else { m.glwe_pack_tmp_bytes(&r_lay, &key_lay).max(m.glwe_pack_tmp_bytes(&ct_lay, &key_lay)) };
+    // packer accumulators: own radix, at least the precision of the inputs
+    let b_acc = c.b_acc.unwrap_or(s.b_in);
+    let acc_size = (s.a_size * s.b_in).div_ceil(b_acc);
+    let acc_lay = glwe_layout(n, b_acc, if b_acc == s.b_in { s.k_in() } else { acc_size * b_acc }, rank);
+    let tmp = if packer { glwe_packer_tmp_bytes(&m, &acc_lay, &key_lay) } else { m.glwe_pack_tmp_bytes(&r_lay, &key_lay).max(m.glwe_pack_tmp_bytes(&ct_lay, &key_lay)) };
     let hot = tmp + HOT_SLACK;
 
     // number of slots and their coefficient positions
     let (slots, levels_pack): (usize, usize) = if packer { (n >> c.log_gap, log_n - c.log_gap) } else { (n >> c.log_gap, log_n - c.log_gap) };
     // per-level bounds: in the ciphertext radix (pack levels) and in the key radix (trace levels of glwe_pack)
-    let lvl_ct = level_bound(s, s.b_in, s.a_size, 2, e2);
+    let lvl_ct = if packer { level_bound(s, b_acc, acc_size, 2, e2) } else { level_bound(s, s.b_in, s.a_size, 2, e2) };
     let k_work = (s.a_size * s.b_in).max(s.res_size * s.b_out);
     let lvl_tr = level_bound(s, s.b_key, k_work.div_ceil(s.b_key), 1, e2);
     let mut bound = lvl_ct.times(levels_pack as u64);
@@ -498,7 +548,7 @@ where
         // the empty packing once more AFTER non-empty ones: the re-used packer must not hand back an earlier result
         subsets.push(0);
     }
-    let mut pk = if packer { Some(GLWEPacker::alloc(&ct_lay, c.log_gap)) } else { None };
+    let mut pk = if packer { Some(GLWEPacker::alloc(&acc_lay, c.log_gap)) } else { None };
     // expected image: (slot t, coefficient u of that slot's ciphertext) -> result position
     let place = |t: usize, u: usize| -> usize {
         if packer {
@@ -586,13 +636,13 @@ where
         if let Err((kind, mut extra)) = first {
             // a panicking packer is left in an undefined state: start from a fresh one
             if r.is_err() && packer {
-                pk = Some(GLWEPacker::alloc(&ct_lay, c.log_gap));
+                pk = Some(GLWEPacker::alloc(&acc_lay, c.log_gap));
             }
             // classification: fresh packer + same garbage -> the failure came from the packer's history;
             //                 fresh packer + zero-filled scratch -> it came from the scratch contents
-            let mut fresh_a = if packer { Some(GLWEPacker::alloc(&ct_lay, c.log_gap)) } else { None };
+            let mut fresh_a = if packer { Some(GLWEPacker::alloc(&acc_lay, c.log_gap)) } else { None };
             let state_dep = packer && call(&mut scr, fill, &mut fresh_a).ok().map(|r2| verdict(&r2).is_ok()).unwrap_or(false);
-            let mut fresh = if packer { Some(GLWEPacker::alloc(&ct_lay, c.log_gap)) } else { None };
+            let mut fresh = if packer { Some(GLWEPacker::alloc(&acc_lay, c.log_gap)) } else { None };
             let clean = call(&mut scr, 2, &mut fresh).ok().map(|r2| verdict(&r2).is_ok()).unwrap_or(false);
             let kind_out: String = if state_dep {
                 "stale_state_result".into()
@@ -619,7 +669,33 @@ pub fn pack_cases<B: Bk>(tier: Tier, op: &str) -> Vec<PackCase> {
     let mut out = vec![];
     for n in [8usize, 16] {
         let log_n = log2n(n);
-        let shapes = composite_shapes(tier, n, &tier.pick(vec![1, 2], vec![1, 2, 3]));
+        let ranks = tier.pick(vec![1, 2], vec![1, 2, 3]);
+        let shapes = composite_shapes(tier, n, &ranks);
+        // independent (input, key, result) radices; for the packer also the accumulator radix (= input or = key)
+        if n == 8 || tier.is_thorough() {
+            for shape in radix_cube_shapes(tier, n, &ranks) {
+                let gaps: Vec<usize> = if op == "glwe_packer" { vec![0, 1] } else { vec![0, 1, log_n] };
+                for gap in gaps {
+                    let slots = n >> gap;
+                    let mut subsets = structured_subsets(slots);
+                    subsets.truncate(tier.pick(4, 12));
+                    let accs: Vec<Option<usize>> = if op == "glwe_packer" { vec![None, Some(shape.b_key)] } else { vec![None] };
+                    for b_acc in accs {
+                        if b_acc == Some(shape.b_in) {
+                            continue;
+                        }
+                        out.push(PackCase {
+                            op: op.into(),
+                            backend: B::NAME.into(),
+                            shape: shape.clone(),
+                            log_gap: gap,
+                            subsets: subsets.clone(),
+                            b_acc,
+                        });
+                    }
+                }
+            }
+        }
         for (si, shape) in shapes.iter().enumerate() {
             // log_gap_out 0..=log_n for glwe_pack; log_batch 0..log_n-1 for the packer (it needs one accumulator)
             let gaps: Vec<usize> = if op == "glwe_packer" { (0..log_n).collect() } else { (0..=log_n).collect() };
@@ -645,6 +721,7 @@ pub fn pack_cases<B: Bk>(tier: Tier, op: &str) -> Vec<PackCase> {
                     shape: shape.clone(),
                     log_gap: gap,
                     subsets,
+                    b_acc: None,
                 });
             }
         }
